@@ -172,6 +172,25 @@ def run(tier, replay_file=None):
                     changed += int(bool(diff(before, snapshot(srv))))
                 R.add("authorised_controls_served", served)
                 R.add("authorised_controls_changed_state", changed)
+                # ... and once every route has been served to an authorised client, the table again: an answer that was
+                # worked out for an authorised request must not be replayed to anybody else
+                for rule, method in prot:
+                    if method in ("OPTIONS", "HEAD") or "stop-instance" in rule:
+                        continue
+                    for cname in ("absent", "wrong", "case"):
+                        before = snapshot(srv)
+                        try:
+                            status = send(srv, rule, method, uid, CREDS[cname])
+                        except Exception as e:
+                            status = "EXC %s" % type(e).__name__
+                        d = diff(before, snapshot(srv))
+                        n_req += 1; n_refused += 1
+                        info = {"state": sname + " (after authorised requests on every route)", "adapter": ad, "rule": rule, "method": method, "credential": cname, "status": status}
+                        if not (isinstance(status, int) and status >= 400):
+                            R.violation("request without the token was served", info)
+                        if d:
+                            info["changed"] = d[:4]
+                            R.violation("refused request changed server state", info)
             finally:
                 srv.close()
             if len(R.violations) >= 20:
